@@ -118,7 +118,19 @@ def leancheck(prop: str):
 
 
 def run(prop: str, tier: str):
-    """Returns a dict: ok, obligations, discharged, problems[], axioms{}, checker_cmd."""
+    """Returns a dict: ok, obligations, discharged, problems[], axioms{}, checker_cmd.
+    Serialised across concurrently running checks (lake is not safe to run twice in one package)."""
+    import fcntl
+    (LEAN / ".lake").mkdir(exist_ok=True)
+    with open(LEAN / ".lake" / "gate.lock", "w") as lk:
+        fcntl.flock(lk, fcntl.LOCK_EX)
+        try:
+            return _run(prop, tier)
+        finally:
+            fcntl.flock(lk, fcntl.LOCK_UN)
+
+
+def _run(prop: str, tier: str):
     res = {"ok": True, "problems": [], "axioms": {}, "obligations": 0, "discharged": 0,
            "checker_cmd": f"cd lean && lake build GradysProofs && lake env lean <#print axioms of every {prop}_* theorem>"}
     ok, out = build()
